@@ -111,7 +111,7 @@ def render_line(st: dict, k: str, n: int, sheb_idx: int = 0) -> str:
 
 
 def render_body(st: dict, body: list, eol: str, final_nl: bool, bom: bool, sheb_idx: int = 0, tws_line: int = 0,
-                quote: bool = False) -> tuple:
+                quote: bool = False, exotic: bool = False) -> tuple:
     """-> (bytes, [line strings]).  quote: a code line above the first one-line tagged comment carries that comment's
     exact bytes inside a string literal (still a code line: to be kept byte for byte)."""
     lines = []
@@ -120,6 +120,11 @@ def render_body(st: dict, body: list, eol: str, final_nl: bool, bom: bool, sheb_
         if tws_line == i and ln["k"] in ("code", "sc", "fc"):
             s += "   "
         lines.append(s)
+    if exotic:
+        # code lines carry characters that str.splitlines() treats as line boundaries although they end no line of the file
+        for i, ln in enumerate(body):
+            if ln["k"] in ("code", "icode"):
+                lines[i] += ' "page\x0cbreak" "ls\u2028ps\u2029" "vt\x0bfs\x1c" "nel\x85"'
     if quote:
         j = next((i for i, ln in enumerate(body) if ln["k"] in ("sct", "monet")), None)
         i = next((i for i, ln in enumerate(body[:j or 0]) if ln["k"] in ("code", "icode")), None)
